@@ -6,7 +6,11 @@ On every run of the C12 check the time-axis kernels below are parsed with `ast` 
 written to `lean/RtcVerif/Gen/IoAxis.lean` as `…Gen` definitions with `…Gen_eq_model` theorems
 (equality with the model functions the C12 theorems are about).  A construct outside the table is
 rejected (`c.broken`), a behaviour change inside the table breaks a theorem; the failing-input
-search of the check runs as usual.
+search of the check runs as usual.  A second generated module, `Gen/IoSlices.lean` (`gen_io_slices`, table
+further down in this file), covers what the accessors hand out: optimisation `IOMixin.bounds / history /
+seed / constant_inputs / parameters` (frame, loop roles, per-variable body incl. the store effect of the
+in-place NaN replacement), `DataStore.set_timeseries / get_timeseries_sec`, and the feed / record dataflow
+of simulation `IOMixin.initialize / update / __set_input_variables`.
 
 translated                                             generated            proved equal to
 ----------------------------------------------------------------------------------------------------
@@ -621,3 +625,1136 @@ def gen_io_axis(c):
             f.write(text)
         os.replace(tmp, path)
     return [("RtcVerif.Gen.IoAxis", "RtcVerif.Gen", thms)] if thms else []
+
+
+# =============================================================================================
+# second generated module: Gen/IoSlices.lean  (gen_io_slices)
+#
+# translated                                             generated               proved equal to
+# ----------------------------------------------------------------------------------------------------
+# optimisation IOMixin.bounds   (frame, loop role, per-variable body;    boundsEntryGen          C12.boundsEntry
+#     incl. the store effect of the in-place NaN replacement)            boundsStoreGen          C12.boundsStoreAfter
+#                                                                        boundsRolesGen          C12.boundsRoles
+# IOMixin.history  (frame, role list, per-variable body)                 historyEntryGen/RolesGen C12.historyEntry/Roles
+# IOMixin.seed                                                           seedEntryGen/RolesGen   C12.seedEntry/Roles
+# IOMixin.constant_inputs                                                constInputEntryGen/RolesGen  C12.constInputEntry/Roles
+# IOMixin.parameters                                                     parametersGen           C12.parametersMerge
+# DataStore.set_timeseries / get_timeseries_sec   (data/storage.py)      ioSetGen / ioGetGen     C12.ioSet / C12.ioGet
+# simulation IOMixin.initialize / update  (feed / record dataflow)       simInitGen / simUpdateGen   C12.simInit / C12.simUpdate
+# simulation IOMixin.__set_input_variables  (row read, finite test)      feedValueGen            C12.feedValue
+#
+# Python construct                                   ->  model term                       (TRUSTED mapping)
+# ----------------------------------------------------------------------------------------------------
+# X = super().<same method>(<same args>) … return X      parent : the parent's dictionary; X[v] its entry for v
+# for variable in self.dae_variables["<role>"]           role list [<role>]; the body is read for one variable v
+# L = self.dae_variables[a] + self.dae_variables[b] …    role list [a, b, …]
+# variable.name()                                        v
+# self.min_timeseries_id(v) / self.max_timeseries_id(v)  Key.min / Key.max   (the two methods must be
+#                                                        `return "_".join((variable, "Min"/"Max"))`)
+# self.io.get_timeseries_sec(<name>, <member>)           (ts, get <member> <key>) ; KeyError = none
+#     member: literal 0 -> 0 ; the method's `ensemble_member` -> m ; omitted -> 0
+# try: <a, b = get…> ; … except KeyError: pass [else: …] match get … with | none => <unchanged> | some vals => …
+# None                                                   none
+# a[i:] / a[:i]                                          a.drop i / a.take i     (a NumPy VIEW of a)
+# a.copy()                                               a                       (no longer a view)
+# Timeseries(t, v) ; Timeseries(*get…)                   (t, v)   (the constructor copies v: timeseries.py;
+#                                                        lengths agree, so no single-value broadcast)
+# s.times / s.values                                     s.1 / s.2
+# np.finfo(a.dtype).min / .max                           -big / big
+# a[np.isnan(a)] = c                                     a := a.map (replNan c) ; if a is still a view of a
+#                                                        stored series the STORED series changes too
+# if x is not None: <statements about x>                 match x with | none => none | some a => some …
+# x is not None or y is not None                         (x.isSome || y.isSome) = true
+# X[v] = e   (X the returned dictionary)                 Entry.io e   (otherwise Entry.inherited parent[v])
+# inds = s.times >= self.initial_time                    s.1.map (fun t => decide (t ≥ 0))
+# np.any(np.isnan(s.values[inds]))                       ((maskSel inds s.2).any (fun v => decide (v = XVal.nan))) = true
+# if <cond>: raise …                                     if <cond> then none else …
+# for k, v in self.io.parameters(ensemble_member).items(): P[k] = v      io.foldl (fun acc kv => aset kv.1 kv.2 acc) parent
+# --- DataStore (st = the per-member stores, n = number of import stamps)
+# self.__ensemble_size                                   st.length   (invariant asserted in __update_ensemble_size)
+# len(self.__timeseries_datetimes)                       n
+# datetimes normalisation / type test / "same datetimes" test / check_duplicates warning      no model effect
+#     (IOMixin.set_timeseries passes self.io.datetimes; the readers pass one axis)
+# self.__update_ensemble_size(k)                         grow' st k      (translated in gen_io_axis: growGen)
+# self.__timeseries_values[m][v] = values                some (st.modify m (sset v x))
+# self.__timeseries_values[m][v]                         (st[m]?).bind (sget v)
+# --- simulation IOMixin (state s : SimSt)
+# self.io.times_sec (also through a local alias)         ts
+# self.__dt = T[1] - T[0]                                dtImport := b - a   on ts = a :: b :: _ (IndexError otherwise)
+# self.setup_experiment(0, T[-1], self.__dt)             time := 0
+# self.get_current_time()                                the current model time
+# self._simulation_times.append(e)                       stamps := stamps ++ [e]
+# self.__set_input_variables(i[, cache flag])            fed := fed ++ [(i, current model time)]
+# super().initialize(config_file)                        model initialised (time unchanged; must come after the feed)
+# super().update(dt)                                     time := time + dt     (C09: SimulationProblem.update)
+# for … in self._io_output…: ….append(self.get_var(…))   recorded := recorded ++ [current model time]
+#   / self._io_output[variable] = [self.get_var(variable)]
+# if dt < 0: dt = self.__dt                              dt := if dtArg < 0 then s.dtImport else dtArg
+# parameter loop, input-name set, output dictionaries, logger calls, cache flag      no model effect (closed list)
+# value = values[t_idx]                                  vals[idx]?   (IndexError = none)
+# isfinite(value)                                        v.isFinite
+# self.set_var(variable, value)  / else: logger.debug    some v / none
+# anything else                                          TranslationError -> obligation broken
+
+
+class _V:
+    __slots__ = ("t", "k", "view")
+
+    def __init__(self, t, k, view=None):
+        self.t, self.k, self.view = t, k, view
+
+
+ROLE = {"states": "Role.states", "algebraics": "Role.algebraics", "control_inputs": "Role.controlInputs",
+        "constant_inputs": "Role.constantInputs", "free_variables": "Role.freeVariables"}
+
+
+def _role_of(node):
+    """self.dae_variables['x'] -> Role term"""
+    if isinstance(node, ast.Subscript) and _attr_chain(node.value) == ["self", "dae_variables"] \
+            and isinstance(node.slice, ast.Constant) and node.slice.value in ROLE:
+        return ROLE[node.slice.value]
+    return None
+
+
+def _roles_of(node):
+    if isinstance(node, ast.BinOp) and isinstance(node.op, ast.Add):
+        return _roles_of(node.left) + _roles_of(node.right)
+    r = _role_of(node)
+    if r is None:
+        raise TranslationError("not a sum of self.dae_variables[...] lists: " + _u(node))
+    return [r]
+
+
+def _key_method(tree, name, suffix):
+    fn = _find_method(tree, "IOMixin", name)
+    body = [s for s in fn.body if not _is_doc(s)]
+    arg = fn.args.args[1].arg if len(fn.args.args) == 2 else None
+    if arg is None or len(body) != 1 or not isinstance(body[0], ast.Return) \
+            or _u(body[0].value) != "'_'.join((%s, '%s'))" % (arg, suffix):
+        raise TranslationError("%s is not `return '_'.join((variable, '%s'))`" % (name, suffix))
+
+
+class _Acc:
+    """symbolic execution of one accessor of the optimisation IOMixin for ONE variable of its loop"""
+
+    def __init__(self, tree, method, has_member):
+        self.tree, self.method, self.has_member = tree, method, has_member
+        self.fn = _find_method(tree, "IOMixin", method)
+        want = ["self", "ensemble_member"] if has_member else ["self"]
+        if [a.arg for a in self.fn.args.args] != want:
+            raise TranslationError("signature of IOMixin.%s" % method)
+        self.dict = None
+        self.roles = None
+        self.store_after = {}   # Key term -> Lean term of the stored array after the call
+        self.raises = False
+        self.n = 0
+
+    # ---- expressions
+    def member(self, node):
+        if isinstance(node, ast.Constant) and node.value == 0 and not isinstance(node.value, bool):
+            return "0"
+        if self.has_member and isinstance(node, ast.Name) and node.id == "ensemble_member":
+            return "m"
+        raise TranslationError("member argument " + _u(node))
+
+    def getter(self, call, env):
+        """self.io.get_timeseries_sec(name, member) -> Lean term of type Option (List XVal), key term"""
+        if _call_name(call) != "self.io.get_timeseries_sec" or call.keywords or len(call.args) != 2:
+            raise TranslationError("not self.io.get_timeseries_sec(name, member): " + _u(call))
+        nm = self.ex(call.args[0], env)
+        if nm.k == "name":
+            key = "Key.var"
+        elif nm.k == "key":
+            key = nm.t
+        else:
+            raise TranslationError("series name " + _u(call.args[0]))
+        return "(get %s %s)" % (self.member(call.args[1]), key), key
+
+    def ex(self, node, env):
+        if isinstance(node, ast.Constant) and node.value is None:
+            return _V("none", "none")
+        if isinstance(node, ast.Constant) and not isinstance(node.value, bool) and node.value in (0, 0.0, 1):
+            return _V(str(int(node.value)), "lit")
+        if isinstance(node, ast.Name):
+            if node.id in env:
+                return env[node.id]
+            raise TranslationError("unknown name " + node.id)
+        ch = _attr_chain(node) if isinstance(node, ast.Attribute) else None
+        if ch == ["self", "io", "times_sec"]:
+            return _V("ts", "ints")
+        if ch == ["self", "initial_time"]:
+            return _V("0", "int")
+        if ch and len(ch) == 2 and ch[0] in env and env[ch[0]].k == "ser" and ch[1] in ("times", "values"):
+            s = env[ch[0]]
+            return _V("%s.1" % s.t, "ints") if ch[1] == "times" else _V("%s.2" % s.t, "vals")
+        if isinstance(node, ast.Attribute) and node.attr in ("min", "max") and _call_name(node.value) == "np.finfo" \
+                and len(node.value.args) == 1 and isinstance(node.value.args[0], ast.Attribute) \
+                and node.value.args[0].attr == "dtype" and self.ex(node.value.args[0].value, env).k == "vals":
+            return _V("(-big)" if node.attr == "min" else "big", "rat")
+        if isinstance(node, ast.BinOp) and isinstance(node.op, ast.Add):
+            a, b = self.ex(node.left, env), self.ex(node.right, env)
+            if a.k == "lit" and b.k == "nat":
+                a, b = b, a
+            if a.k == "nat" and b.k == "lit" and b.t == "1":
+                return _V("%s + 1" % a.t, "nat")
+            raise TranslationError("unsupported sum " + _u(node))
+        if isinstance(node, ast.Compare) and len(node.ops) == 1 and isinstance(node.ops[0], ast.GtE):
+            a, b = self.ex(node.left, env), self.ex(node.comparators[0], env)
+            if a.k == "ints" and b.k in ("int", "lit"):
+                return _V("(%s.map (fun t => decide (t ≥ %s)))" % (a.t, b.t), "mask")
+            raise TranslationError("unsupported comparison " + _u(node))
+        if isinstance(node, ast.Subscript):
+            a = self.ex(node.value, env)
+            sl = node.slice
+            if isinstance(sl, ast.Slice) and sl.step is None and a.k in ("ints", "vals"):
+                if sl.lower is not None and sl.upper is None:
+                    i = self.ex(sl.lower, env)
+                    if i.k == "nat":
+                        view = ("drop", i.t, a.view[1], a.view[2]) if a.view and a.view[0] == "whole" else None
+                        return _V("(%s.drop (%s))" % (a.t, i.t), a.k, view)
+                if sl.lower is None and sl.upper is not None:
+                    i = self.ex(sl.upper, env)
+                    if i.k == "nat":
+                        return _V("(%s.take (%s))" % (a.t, i.t), a.k, None if not a.view else ("other",))
+            if a.k == "vals" and isinstance(sl, ast.Name) and sl.id in env and env[sl.id].k == "mask":
+                return _V("(maskSel %s %s)" % (env[sl.id].t, a.t), "vals")
+            raise TranslationError("unsupported subscript " + _u(node))
+        if isinstance(node, ast.Call) and not node.keywords:
+            name = _call_name(node)
+            a = node.args
+            if name == "bisect.bisect_left" and len(a) == 2:
+                l, x = self.ex(a[0], env), self.ex(a[1], env)
+                if l.k != "ints" or x.k not in ("int", "lit"):
+                    raise TranslationError("bisect_left arguments: " + _u(node))
+                return _V("(bisectLeft %s %s)" % (l.t, x.t), "nat")
+            if isinstance(node.func, ast.Attribute) and node.func.attr == "copy" and not a:
+                v = self.ex(node.func.value, env)
+                if v.k != "vals":
+                    raise TranslationError(".copy() of " + _u(node.func.value))
+                return _V(v.t, "vals", None)
+            if isinstance(node.func, ast.Attribute) and node.func.attr == "name" and not a:
+                v = self.ex(node.func.value, env)
+                if v.k == "var":
+                    return _V("v", "name")
+            if name in ("self.min_timeseries_id", "self.max_timeseries_id") and len(a) == 1 \
+                    and self.ex(a[0], env).k == "name":
+                which = "min" if "min" in name else "max"
+                _key_method(self.tree, which + "_timeseries_id", "Min" if which == "min" else "Max")
+                return _V("Key." + which, "key")
+            if name == "Timeseries" and len(a) == 2:
+                t, v = self.ex(a[0], env), self.ex(a[1], env)
+                if t.k != "ints" or v.k != "vals":
+                    raise TranslationError("Timeseries arguments " + _u(node))
+                return _V("(%s, %s)" % (t.t, v.t), "ser")
+            if name == "np.any" and len(a) == 1 and _call_name(a[0]) == "np.isnan" and len(a[0].args) == 1:
+                v = self.ex(a[0].args[0], env)
+                if v.k != "vals":
+                    raise TranslationError("np.isnan argument " + _u(node))
+                return _V("(%s.any (fun v => decide (v = XVal.nan))) = true" % v.t, "prop")
+        raise TranslationError("unsupported expression in IOMixin.%s: %s" % (self.method, _u(node)))
+
+    # ---- statements; env maps names to _V; "@entry" holds the dictionary entry written for v
+    def block(self, stmts, env):
+        env = dict(env)
+        for i, st in enumerate(stmts):
+            if _is_doc(st) or _is_logging(st) or isinstance(st, ast.Pass):
+                continue
+            if isinstance(st, ast.Assign) and len(st.targets) == 1:
+                tg = st.targets[0]
+                if isinstance(tg, ast.Name):
+                    env[tg.id] = self.ex(st.value, env)
+                    continue
+                if isinstance(tg, ast.Tuple) and isinstance(st.value, ast.Tuple) and len(tg.elts) == len(st.value.elts) \
+                        and all(isinstance(e, ast.Name) for e in tg.elts):
+                    vals = [self.ex(e, env) for e in st.value.elts]
+                    for e, v in zip(tg.elts, vals):
+                        env[e.id] = v
+                    continue
+                # a[np.isnan(a)] = c
+                if isinstance(tg, ast.Subscript) and _call_name(tg.slice) == "np.isnan" and len(tg.slice.args) == 1 \
+                        and _u(tg.slice.args[0]) == _u(tg.value):
+                    c = self.ex(st.value, env)
+                    if c.k == "lit":
+                        c = _V("%s" % c.t, "rat")
+                    if c.k != "rat":
+                        raise TranslationError("NaN replacement value " + _u(st.value))
+                    self.assign_into(tg.value, env, c.t)
+                    continue
+                # X[v] = e
+                if isinstance(tg, ast.Subscript) and isinstance(tg.value, ast.Name) and tg.value.id == self.dict \
+                        and self.ex(tg.slice, env).k == "name":
+                    if isinstance(st.value, ast.Tuple) and len(st.value.elts) == 2:
+                        a, b = [self.ex(e, env) for e in st.value.elts]
+                        if a.k != "optser" or b.k != "optser":
+                            raise TranslationError("bounds pair of kinds %s, %s" % (a.k, b.k))
+                        env["@entry"] = _V("Entry.io (%s, %s)" % (a.t, b.t), "entry")
+                    else:
+                        e = self.ex(st.value, env)
+                        if e.k != "ser":
+                            raise TranslationError("dictionary value of kind " + e.k)
+                        env["@entry"] = _V("Entry.io %s" % e.t, "entry")
+                    continue
+            if isinstance(st, ast.Try):
+                env = self.do_try(st, env)
+                continue
+            if isinstance(st, ast.If):
+                env = self.do_if(st, env, stmts[i + 1:])
+                if env.get("@done"):
+                    return env
+                continue
+            raise TranslationError("unsupported statement in IOMixin.%s: %s" % (self.method, _u(st)))
+        return env
+
+    def assign_into(self, target, env, c):
+        """target[np.isnan(target)] = c"""
+        if isinstance(target, ast.Name) and target.id in env and env[target.id].k == "vals":
+            v = env[target.id]
+            env[target.id] = _V("(%s.map (replNan %s))" % (v.t, c), "vals", v.view)
+            if v.view:
+                if v.view[0] == "drop":
+                    _, k, base, key = v.view
+                    self.store_after[key] = "(%s.take (%s) ++ (%s.drop (%s)).map (replNan %s))" % (base, k, base, k, c)
+                elif v.view[0] == "whole":
+                    self.store_after[v.view[2]] = "(%s.map (replNan %s))" % (v.view[1], c)
+                else:
+                    raise TranslationError("in-place write into a view of a stored series: " + _u(target))
+            return
+        ch = _attr_chain(target) if isinstance(target, ast.Attribute) else None
+        if ch and len(ch) == 2 and ch[1] == "values" and ch[0] in env and env[ch[0]].k == "ser":
+            s = env[ch[0]]
+            env[ch[0]] = _V("(%s.1, %s.2.map (replNan %s))" % (s.t, s.t, c), "ser")
+            return
+        raise TranslationError("unsupported in-place write " + _u(target))
+
+    def do_try(self, st, env):
+        if len(st.handlers) != 1 or _u(st.handlers[0].type) != "KeyError" or st.handlers[0].name \
+                or not all(isinstance(s, ast.Pass) for s in st.handlers[0].body) or st.finalbody:
+            raise TranslationError("try without exactly `except KeyError: pass`")
+        first = st.body[0]
+        if not (isinstance(first, ast.Assign) and len(first.targets) == 1):
+            raise TranslationError("try body does not start with a data-store read")
+        tg, val = first.targets[0], first.value
+        self.n += 1
+        bv = "vals"
+        inner = dict(env)
+        if isinstance(tg, ast.Tuple) and len(tg.elts) == 2 and all(isinstance(e, ast.Name) for e in tg.elts):
+            g, key = self.getter(val, env)
+            inner[tg.elts[0].id] = _V("ts", "ints")
+            inner[tg.elts[1].id] = _V(bv, "vals", ("whole", bv, key))
+        elif isinstance(tg, ast.Name) and _call_name(val) == "Timeseries" and len(val.args) == 1 \
+                and isinstance(val.args[0], ast.Starred):
+            g, key = self.getter(val.args[0].value, env)
+            inner[tg.id] = _V("(ts, %s)" % bv, "ser")
+        else:
+            raise TranslationError("try body does not start with a data-store read: " + _u(first))
+        inner = self.block(list(st.body[1:]) + list(st.orelse), inner)
+        out = dict(env)
+        for name, v in inner.items():
+            old = env.get(name)
+            if old is v or name in (e.id for e in (tg.elts if isinstance(tg, ast.Tuple) else [tg])):
+                continue
+            if name == "@entry":
+                if old is not None:
+                    raise TranslationError("entry written twice")
+                if v.k == "optentry":
+                    out[name] = _V("(match %s with | none => some (Entry.inherited parent) | some %s => %s)" % (g, bv, v.t),
+                                   "optentry")
+                else:
+                    out[name] = _V("(match %s with | none => Entry.inherited parent | some %s => %s)" % (g, bv, v.t), "entry")
+                continue
+            if name.startswith("@"):
+                out[name] = v
+                continue
+            if old is not None and old.k == "none" and v.k == "vals":
+                out[name] = _V("(match %s with | none => none | some %s => some %s)" % (g, bv, v.t), "optvals",
+                               None)
+                # the view (if any) is carried through the option
+                out[name].view = v.view
+                continue
+            if old is None:
+                continue  # a local of the try body
+            raise TranslationError("name %s assigned in a try body with kinds %s -> %s" % (name, old.k, v.k))
+        return out
+
+    def do_if(self, st, env, rest):
+        t = st.test
+        # if x is not None: <statements about x>
+        if isinstance(t, ast.Compare) and len(t.ops) == 1 and isinstance(t.ops[0], ast.IsNot) \
+                and isinstance(t.comparators[0], ast.Constant) and t.comparators[0].value is None \
+                and isinstance(t.left, ast.Name) and not st.orelse:
+            x = t.left.id
+            if x not in env or env[x].k != "optvals":
+                raise TranslationError("`is not None` test of " + _u(t.left))
+            inner = dict(env)
+            # the payload is still a view of the stored series if the slice was never copied
+            inner[x] = _V("a", "vals", env[x].view)
+            inner = self.block(st.body, inner)
+            changed = [n for n in inner if inner[n] is not env.get(n)]
+            if changed != [x] or inner[x].k != "ser":
+                raise TranslationError("`if %s is not None` assigns %s" % (x, changed))
+            out = dict(env)
+            out[x] = _V("(match %s with | none => none | some a => some %s)" % (env[x].t, inner[x].t), "optser")
+            return out
+        # if m is not None or M is not None: X[v] = (m, M)
+        if isinstance(t, ast.BoolOp) and isinstance(t.op, ast.Or) and not st.orelse and all(
+                isinstance(v, ast.Compare) and len(v.ops) == 1 and isinstance(v.ops[0], ast.IsNot)
+                and isinstance(v.left, ast.Name) and isinstance(v.comparators[0], ast.Constant)
+                and v.comparators[0].value is None for v in t.values):
+            names = [v.left.id for v in t.values]
+            for n in names:
+                if n not in env or env[n].k != "optser":
+                    raise TranslationError("`is not None` test of " + n)
+            cond = "(%s) = true" % " || ".join("%s.isSome" % env[n].t for n in names)
+            inner = self.block(st.body, env)
+            if "@entry" not in inner or "@entry" in env:
+                raise TranslationError("conditional does not write the entry")
+            out = dict(env)
+            out["@entry"] = _V("(if %s then %s else Entry.inherited parent)" % (cond, inner["@entry"].t), "entry")
+            return out
+        # if <cond>: raise …   (the rest of the block is the else branch)
+        if len(st.body) == 1 and isinstance(st.body[0], ast.Raise) and not st.orelse:
+            c = self.ex(t, env)
+            if c.k != "prop":
+                raise TranslationError("condition of a raise: " + _u(t))
+            self.raises = True
+            inner = self.block(rest, env)
+            if "@entry" not in inner or inner["@entry"].k != "entry":
+                raise TranslationError("no entry written after the raise test")
+            out = dict(env)
+            out["@entry"] = _V("(if %s then none else some (%s))" % (c.t, inner["@entry"].t), "optentry")
+            out["@done"] = True
+            return out
+        raise TranslationError("unsupported `if` in IOMixin.%s: %s" % (self.method, _u(t)))
+
+    # ---- the method frame
+    def run(self):
+        body = [s for s in self.fn.body if not _is_doc(s) and not _is_logging(s)]
+        if len(body) < 3:
+            raise TranslationError("IOMixin.%s: body too short" % self.method)
+        s0, last = body[0], body[-1]
+        args = "ensemble_member" if self.has_member else ""
+        if not (isinstance(s0, ast.Assign) and isinstance(s0.targets[0], ast.Name)
+                and _u(s0.value) == "super().%s(%s)" % (self.method, args)):
+            raise TranslationError("IOMixin.%s does not start with X = super().%s(%s)" % (self.method, self.method, args))
+        self.dict = s0.targets[0].id
+        if not (isinstance(last, ast.Return) and isinstance(last.value, ast.Name) and last.value.id == self.dict):
+            raise TranslationError("IOMixin.%s does not return the parent's dictionary" % self.method)
+        env, loop = {}, None
+        for st in body[1:-1]:
+            if isinstance(st, ast.For):
+                if loop is not None:
+                    raise TranslationError("more than one loop")
+                loop = st
+                continue
+            if loop is not None:
+                raise TranslationError("statement after the loop: " + _u(st))
+            if isinstance(st, ast.Assign) and len(st.targets) == 1 and isinstance(st.targets[0], ast.Name):
+                try:
+                    env[st.targets[0].id] = _V(_roles_of(st.value), "roles")
+                    continue
+                except TranslationError:
+                    pass
+            env = self.block([st], env)
+        if loop is None or loop.orelse or not isinstance(loop.target, ast.Name):
+            raise TranslationError("IOMixin.%s: no loop over the variables" % self.method)
+        it = loop.iter
+        if isinstance(it, ast.Name) and it.id in env and env[it.id].k == "roles":
+            self.roles = env[it.id].t
+        else:
+            self.roles = _roles_of(it)
+        env[loop.target.id] = _V("v", "var")
+        lb = list(loop.body)
+        # `variable = variable.name()` rebinding
+        out = self.block(lb, env)
+        if "@entry" not in out:
+            raise TranslationError("IOMixin.%s: the loop body writes no entry" % self.method)
+        return out["@entry"]
+
+
+def _acc(method, has_member):
+    tree = _parse("optimization/io_mixin.py")
+    a = _Acc(tree, method, has_member)
+    e = a.run()
+    return a, e
+
+
+def translate_bounds():
+    a, e = _acc("bounds", False)
+    if e.k != "entry":
+        raise TranslationError("bounds(): entry kind " + e.k)
+    after = {k: a.store_after.get(k, "vals") for k in ("Key.min", "Key.max")}
+    return {"entry": e.t, "roles": "[%s]" % ", ".join(a.roles), "smin": after["Key.min"], "smax": after["Key.max"]}
+
+
+def translate_history_entry():
+    a, e = _acc("history", True)
+    if e.k != "entry" or a.store_after:
+        raise TranslationError("history(): entry kind " + e.k)
+    return {"entry": e.t, "roles": "[%s]" % ", ".join(a.roles)}
+
+
+def translate_seed():
+    a, e = _acc("seed", True)
+    if e.k != "entry" or a.store_after:
+        raise TranslationError("seed(): entry kind %s / store written" % e.k)
+    return {"entry": e.t, "roles": "[%s]" % ", ".join(a.roles)}
+
+
+def translate_constant_inputs():
+    a, e = _acc("constant_inputs", True)
+    if e.k != "optentry" or a.store_after:
+        raise TranslationError("constant_inputs(): entry kind %s / store written" % e.k)
+    return {"entry": e.t, "roles": "[%s]" % ", ".join(a.roles)}
+
+
+def translate_parameters():
+    fn = _find_method(_parse("optimization/io_mixin.py"), "IOMixin", "parameters")
+    if [a.arg for a in fn.args.args] != ["self", "ensemble_member"]:
+        raise TranslationError("signature of IOMixin.parameters")
+    body = [s for s in fn.body if not _is_doc(s) and not _is_logging(s)]
+    if len(body) != 3:
+        raise TranslationError("IOMixin.parameters is not (parent; loop; return)")
+    s0, lp, rt = body
+    if not (isinstance(s0, ast.Assign) and isinstance(s0.targets[0], ast.Name)
+            and _u(s0.value) == "super().parameters(ensemble_member)"):
+        raise TranslationError("IOMixin.parameters does not start with the parent's dictionary")
+    d = s0.targets[0].id
+    if not (isinstance(rt, ast.Return) and _u(rt.value) == d):
+        raise TranslationError("IOMixin.parameters does not return the parent's dictionary")
+    if not (isinstance(lp, ast.For) and _u(lp.iter) == "self.io.parameters(ensemble_member).items()"
+            and isinstance(lp.target, ast.Tuple) and len(lp.target.elts) == 2 and not lp.orelse and len(lp.body) == 1):
+        raise TranslationError("IOMixin.parameters: loop is not over self.io.parameters(ensemble_member).items()")
+    k, v = [_u(e) for e in lp.target.elts]
+    if _u(lp.body[0]) != "%s[%s] = %s" % (d, k, v):
+        raise TranslationError("IOMixin.parameters: loop body is not P[k] = v: " + _u(lp.body[0]))
+    return {"t": "io.foldl (fun acc kv => aset kv.1 kv.2 acc) parent"}
+
+
+# ---- DataStore.set_timeseries / get_timeseries_sec
+
+
+def _cmp_sides(node, op):
+    if isinstance(node, ast.Compare) and len(node.ops) == 1 and isinstance(node.ops[0], op):
+        return _u(node.left), _u(node.comparators[0])
+    return None
+
+
+def translate_store_set():
+    fn = _find_method(_parse("data/storage.py"), "DataStore", "set_timeseries")
+    if [a.arg for a in fn.args.args] != ["self", "variable", "datetimes", "values", "ensemble_member", "check_duplicates"]:
+        raise TranslationError("signature of DataStore.set_timeseries")
+    body = [s for s in fn.body if not _is_doc(s) and not _is_logging(s)]
+    st, guard, result = "st", None, None
+    NOEFFECT = ("datetimes = list(datetimes)", "self.__timeseries_datetimes = datetimes")
+    LEN = {"len(self.__timeseries_datetimes)": "n", "len(values)": "x.length", "len(datetimes)": "n"}
+    for s in body:
+        if result is not None:
+            raise TranslationError("DataStore.set_timeseries: statement after the store write: " + _u(s))
+        if _u(s) in NOEFFECT:
+            continue
+        if isinstance(s, ast.If) and not s.orelse:
+            t = _u(s.test, 300)
+            if len(s.body) == 1 and isinstance(s.body[0], ast.Raise):
+                if t == "not isinstance(datetimes[0], datetime)":
+                    continue
+                if t == "self.__timeseries_datetimes is not None and datetimes != self.__timeseries_datetimes":
+                    continue
+                ne = _cmp_sides(s.test, ast.NotEq)
+                if ne and ne[0] in LEN and ne[1] in LEN and {LEN[ne[0]], LEN[ne[1]]} == {"n", "x.length"} and guard is None:
+                    guard = "%s ≠ %s" % (LEN[ne[0]], LEN[ne[1]])
+                    continue
+                raise TranslationError("DataStore.set_timeseries: unknown raise test " + t)
+            if t.startswith("check_duplicates and ") and all(_is_logging(b) for b in s.body):
+                continue
+            ge = _cmp_sides(s.test, ast.GtE)
+            if ge == ("ensemble_member", "self.__ensemble_size") and len(s.body) == 1 \
+                    and _call_name(getattr(s.body[0], "value", None)) == "self.__update_ensemble_size" \
+                    and len(s.body[0].value.args) == 1:
+                a = s.body[0].value.args[0]
+                if not (isinstance(a, ast.BinOp) and isinstance(a.op, ast.Add)
+                        and sorted([_u(a.left), _u(a.right)]) == ["1", "ensemble_member"]):
+                    raise TranslationError("DataStore.set_timeseries: new ensemble size is " + _u(a))
+                if guard is None:
+                    raise TranslationError("DataStore.set_timeseries: the store grows before the length test")
+                st = "(if m ≥ st.length then grow' st (%s) else st)" % ("m + 1" if _u(a.left) == "ensemble_member" else "1 + m")
+                continue
+            raise TranslationError("DataStore.set_timeseries: unsupported `if` " + t)
+        if _u(s) == "self.__timeseries_values[ensemble_member][variable] = values":
+            result = "some (%s.modify m (sset v x))" % st
+            continue
+        raise TranslationError("DataStore.set_timeseries: unsupported statement " + _u(s))
+    if guard is None or result is None:
+        raise TranslationError("DataStore.set_timeseries: no length test / no store write")
+    return {"t": "if %s then none else %s" % (guard, result)}
+
+
+def translate_store_get():
+    fn = _find_method(_parse("data/storage.py"), "DataStore", "get_timeseries_sec")
+    if [a.arg for a in fn.args.args] != ["self", "variable", "ensemble_member"]:
+        raise TranslationError("signature of DataStore.get_timeseries_sec")
+    if len(fn.args.defaults) != 1 or _u(fn.args.defaults[0]) != "0":
+        raise TranslationError("DataStore.get_timeseries_sec: default member is not 0")
+    body = [s for s in fn.body if not _is_doc(s) and not _is_logging(s)]
+    guard, result = None, None
+    for s in body:
+        if result is not None:
+            raise TranslationError("statement after return")
+        if _u(s) == "self._datetimes_to_seconds()":
+            continue
+        if isinstance(s, ast.If) and not s.orelse and len(s.body) == 1 and isinstance(s.body[0], ast.Raise) \
+                and _cmp_sides(s.test, ast.GtE) == ("ensemble_member", "self.__ensemble_size") \
+                and "KeyError" in _u(s.body[0]):
+            guard = "m ≥ st.length"
+            continue
+        if isinstance(s, ast.Return) and _u(s.value) == \
+                "(self.__timeseries_times_sec, self.__timeseries_values[ensemble_member][variable])":
+            result = "(st[m]?).bind (sget v)"
+            continue
+        raise TranslationError("DataStore.get_timeseries_sec: unsupported statement " + _u(s))
+    if guard is None or result is None:
+        raise TranslationError("DataStore.get_timeseries_sec: no member test / no return")
+    return {"t": "if %s then none else %s" % (guard, result)}
+
+
+# ---- simulation IOMixin.initialize / update / __set_input_variables
+
+
+class _Sim:
+    def __init__(self):
+        self.time = None        # Lean term of the current model time
+        self.stamps, self.fed, self.rec = [], [], []
+        self.env = {}
+
+    def ex(self, node):
+        if isinstance(node, ast.Name) and node.id in self.env:
+            return self.env[node.id]
+        if isinstance(node, ast.Constant) and not isinstance(node.value, bool) and node.value in (0, 0.0):
+            return ("0", "int")
+        if _attr_chain(node) == ["self", "io", "times_sec"]:
+            return ("ts", "ints")
+        if _u(node) == "self.get_current_time()":
+            if self.time is None:
+                raise TranslationError("model time read before the experiment is set up")
+            return (self.time, "int")
+        if isinstance(node, ast.BinOp) and isinstance(node.op, ast.Add):
+            (a, ka), (b, kb) = self.ex(node.left), self.ex(node.right)
+            if ka == "int" and kb == "int":
+                return ("(%s + %s)" % (a, b), "int")
+        if _call_name(node) == "bisect.bisect_left" and len(node.args) == 2 and not node.keywords:
+            (l, kl), (x, kx) = self.ex(node.args[0]), self.ex(node.args[1])
+            if kl == "ints" and kx == "int":
+                return ("(bisectLeft %s %s)" % (l, x), "nat")
+        raise TranslationError("simulation IOMixin: unsupported expression " + _u(node))
+
+    def feed(self, st):
+        c = st.value
+        if not (1 <= len(c.args) <= 2) or c.keywords:
+            raise TranslationError("arguments of __set_input_variables: " + _u(st))
+        i, k = self.ex(c.args[0])
+        if k != "nat":
+            raise TranslationError("row index of __set_input_variables: " + _u(c.args[0]))
+        if self.time is None:
+            raise TranslationError("inputs fed before the experiment is set up")
+        self.fed.append("(%s, %s)" % (i, self.time))
+
+    def is_record(self, st):
+        """for … in self._io_output….: ….append(self.get_var(…))  /  self._io_output[variable] = [self.get_var(variable)]"""
+        if not (isinstance(st, ast.For) and not st.orelse and len(st.body) == 1 and "self._io_output" in _u(st.iter)):
+            return False
+        b = _u(st.body[0], 200)
+        if isinstance(st.target, ast.Tuple) and len(st.target.elts) == 2:
+            k, v = [_u(e) for e in st.target.elts]
+            return _u(st.iter) == "self._io_output.items()" and b == "%s.append(self.get_var(%s))" % (v, k)
+        k = _u(st.target)
+        return _u(st.iter) == "self._io_output_variables" and b == "self._io_output[%s] = [self.get_var(%s)]" % (k, k)
+
+
+SIM_INIT_NOEFFECT = (
+    "parameter_variables = set(self.get_parameter_variables())",
+    "self.__input_variables = set(self.get_input_variables().keys())",
+    "self._io_output_variables = self.get_output_variables()",
+    "self._io_output = AliasDict(self.alias_relation)",
+)
+
+
+def translate_sim_initialize():
+    fn = _find_method(_parse("simulation/io_mixin.py"), "IOMixin", "initialize")
+    body = [s for s in fn.body if not _is_doc(s) and not _is_logging(s)]
+    S = _Sim()
+    dt_ok = initialised = False
+    for st in body:
+        u = _u(st, 300)
+        if u in SIM_INIT_NOEFFECT:
+            continue
+        if isinstance(st, ast.For) and _u(st.iter) == "self.io.parameters().items()":
+            continue  # parameters of the import set on the model: no time axis involved
+        if isinstance(st, ast.Assign) and len(st.targets) == 1:
+            tg = st.targets[0]
+            if _attr_chain(tg) == ["self", "_IOMixin__dt"] or _u(tg) == "self.__dt":
+                v = st.value
+                if not (isinstance(v, ast.BinOp) and isinstance(v.op, ast.Sub)
+                        and all(isinstance(x, ast.Subscript) and S.ex(x.value) == ("ts", "ints") for x in (v.left, v.right))
+                        and _u(v.left.slice) == "1" and _u(v.right.slice) == "0"):
+                    raise TranslationError("import step is not T[1] - T[0]: " + u)
+                dt_ok = True
+                continue
+            if isinstance(tg, ast.Name):
+                S.env[tg.id] = S.ex(st.value)
+                continue
+        if isinstance(st, ast.Expr) and isinstance(st.value, ast.Call):
+            nm = _call_name(st.value)
+            a = st.value.args
+            if nm == "self.setup_experiment":
+                if not dt_ok or len(a) != 3 or _u(a[0]) not in ("0", "0.0") or _u(a[2]) != "self.__dt" \
+                        or not (isinstance(a[1], ast.Subscript) and S.ex(a[1].value) == ("ts", "ints") and _u(a[1].slice) == "-1"):
+                    raise TranslationError("experiment is not set up as (0, T[-1], T[1] - T[0]): " + u)
+                S.time = "0"
+                continue
+            if nm == "self.__set_input_variables":
+                if initialised:
+                    raise TranslationError("inputs fed after the model was initialised")
+                S.feed(st)
+                continue
+            if nm == "self._simulation_times.append" and len(a) == 1:
+                t, k = S.ex(a[0])
+                if k != "int":
+                    raise TranslationError("listed stamp " + u)
+                S.stamps.append(t)
+                continue
+            if u == "super().initialize(config_file)":
+                if not S.fed:
+                    raise TranslationError("model initialised before the inputs of t0 were fed")
+                initialised = True
+                continue
+        if S.is_record(st):
+            if not initialised:
+                raise TranslationError("outputs read before the model was initialised")
+            S.rec.append(S.time)
+            continue
+        raise TranslationError("simulation IOMixin.initialize: unsupported statement " + u)
+    if not (dt_ok and initialised and S.time is not None):
+        raise TranslationError("simulation IOMixin.initialize: incomplete (step / experiment / initialisation)")
+    return {"time": S.time, "stamps": "[%s]" % ", ".join(S.stamps), "fed": "[%s]" % ", ".join(S.fed),
+            "rec": "[%s]" % ", ".join(S.rec)}
+
+
+def translate_sim_update():
+    fn = _find_method(_parse("simulation/io_mixin.py"), "IOMixin", "update")
+    if [a.arg for a in fn.args.args] != ["self", "dt"]:
+        raise TranslationError("signature of simulation IOMixin.update")
+    body = [s for s in fn.body if not _is_doc(s) and not _is_logging(s)]
+    S = _Sim()
+    S.time = "s.time"
+    S.env["dt"] = ("dtArg", "int")
+    for st in body:
+        u = _u(st, 300)
+        if u == "self.__first_update_call = False":
+            continue
+        if isinstance(st, ast.If) and not st.orelse and _u(st.test) == "dt < 0" and len(st.body) == 1 \
+                and _u(st.body[0]) == "dt = self.__dt":
+            S.env["dt"] = ("(if %s < 0 then s.dtImport else %s)" % (S.env["dt"][0], S.env["dt"][0]), "int")
+            continue
+        if isinstance(st, ast.Assign) and len(st.targets) == 1 and isinstance(st.targets[0], ast.Name):
+            S.env[st.targets[0].id] = S.ex(st.value)
+            continue
+        if isinstance(st, ast.Expr) and isinstance(st.value, ast.Call):
+            nm = _call_name(st.value)
+            a = st.value.args
+            if nm == "self.__set_input_variables":
+                S.feed(st)
+                continue
+            if nm == "self._simulation_times.append" and len(a) == 1:
+                t, k = S.ex(a[0])
+                if k != "int":
+                    raise TranslationError("listed stamp " + u)
+                S.stamps.append(t)
+                continue
+            if nm == "super.update" or _u(st.value.func) == "super().update":
+                if len(a) != 1 or st.value.keywords:
+                    raise TranslationError("super().update arguments")
+                d, k = S.ex(a[0])
+                if k != "int":
+                    raise TranslationError("super().update argument " + u)
+                S.time = "(%s + %s)" % (S.time, d)
+                continue
+        if S.is_record(st):
+            S.rec.append(S.time)
+            continue
+        raise TranslationError("simulation IOMixin.update: unsupported statement " + u)
+    return {"time": S.time, "stamps": "[%s]" % ", ".join(S.stamps), "fed": "[%s]" % ", ".join(S.fed),
+            "rec": "[%s]" % ", ".join(S.rec)}
+
+
+def translate_feed_value():
+    fn = _find_method(_parse("simulation/io_mixin.py"), "IOMixin", "__set_input_variables")
+    if [a.arg for a in fn.args.args] != ["self", "t_idx", "use_cache"]:
+        raise TranslationError("signature of __set_input_variables")
+    loops = [s for s in fn.body if isinstance(s, ast.For)]
+    if len(loops) != 1 or _u(loops[0].iter) != "self.__cache_loop_timeseries.items()" \
+            or not isinstance(loops[0].target, ast.Tuple) or len(loops[0].target.elts) != 2:
+        raise TranslationError("__set_input_variables: no single loop over the cached series")
+    var, vals = [_u(e) for e in loops[0].target.elts]
+    body = [s for s in loops[0].body if not _is_logging(s)]
+    if len(body) != 2 or not isinstance(body[0], ast.Assign) or not isinstance(body[1], ast.If):
+        raise TranslationError("__set_input_variables: loop body is not (row read; finite test)")
+    val = _u(body[0].targets[0])
+    if _u(body[0].value) != "%s[t_idx]" % vals:
+        raise TranslationError("__set_input_variables: row read is " + _u(body[0].value))
+    iff = body[1]
+    if _u(iff.test) != "isfinite(%s)" % val or len(iff.body) != 1 \
+            or _u(iff.body[0]) != "self.set_var(%s, %s)" % (var, val) or not all(_is_logging(s) for s in iff.orelse):
+        raise TranslationError("__set_input_variables: finite test / set_var: " + _u(iff, 200))
+    # the cached series are the stored ones (member 0), read when the cache is (re)built
+    fill = [n for n in ast.walk(fn) if isinstance(n, ast.Assign) and "self.__cache_loop_timeseries[" in _u(n.targets[0])]
+    reads = [n for n in ast.walk(fn) if isinstance(n, ast.Assign) and _call_name(n.value) == "self.io.get_timeseries_sec"]
+    if len(fill) != 1 or len(reads) != 1 or len(reads[0].value.args) != 1 or reads[0].value.keywords \
+            or not isinstance(reads[0].targets[0], ast.Tuple) \
+            or _u(fill[0]) != "self.__cache_loop_timeseries[%s] = %s" % (_u(reads[0].value.args[0]), _u(reads[0].targets[0].elts[1])):
+        raise TranslationError("__set_input_variables: the cache is not filled with the stored series of member 0")
+    return {"t": "match vals[idx]? with | none => none | some v => some (if v.isFinite then some v else none)"}
+
+
+HEAD2 = """import RtcVerif.Model.C12Io
+import RtcVerif.Proofs.C12Io
+/-!
+GENERATED on every run of the C12 check by harness/translate_c12.py (`gen_io_slices`) from the tree
+under check (optimization/io_mixin.py, simulation/io_mixin.py, data/storage.py).  Do not edit.
+-/
+set_option linter.unusedVariables false
+set_option linter.unreachableTactic false
+set_option linter.unusedTactic false
+set_option linter.unusedSimpArgs false
+namespace RtcVerif.Gen
+open RtcVerif RtcVerif.C12
+"""
+
+PIECES2 = {
+    "bounds": """
+def boundsEntryGen {β : Type} (ts : List Int) (get : Getter) (big : Rat) (parent : Option β) :
+    Entry β (Option Ser × Option Ser) := %(entry)s
+
+theorem boundsEntryGen_eq_model {β : Type} (ts : List Int) (get : Getter) (big : Rat) (parent : Option β) :
+    boundsEntryGen ts get big parent = C12.boundsEntry ts get big parent := by
+  unfold boundsEntryGen C12.boundsEntry C12.boundSide C12.boundSeries
+  cases h1 : get 0 Key.min <;> cases h2 : get 0 Key.max <;> simp [C12.replNan_def, h1, h2]
+
+def boundsStoreGen (ts : List Int) (vals : List XVal) (lower : Bool) (big : Rat) : List XVal :=
+  if lower then %(smin)s else %(smax)s
+
+theorem boundsStoreGen_eq_model (ts : List Int) (vals : List XVal) (lower : Bool) (big : Rat) :
+    boundsStoreGen ts vals lower big = C12.boundsStoreAfter ts vals lower big := by
+  cases lower <;> rfl
+
+def boundsRolesGen : List Role := %(roles)s
+
+theorem boundsRolesGen_eq_model : boundsRolesGen = C12.boundsRoles := rfl
+""",
+    "history": """
+def historyEntryGen {β : Type} (ts : List Int) (get : Getter) (m : Nat) (parent : Option β) : Entry β Ser := %(entry)s
+
+theorem historyEntryGen_eq_model {β : Type} (ts : List Int) (get : Getter) (m : Nat) (parent : Option β) :
+    historyEntryGen ts get m parent = C12.historyEntry ts get m parent := by
+  unfold historyEntryGen C12.historyEntry C12.history C12.histLen
+  cases get m Key.var <;> rfl
+
+def historyRolesGen : List Role := %(roles)s
+
+theorem historyRolesGen_eq_model : historyRolesGen = C12.historyRoles := rfl
+""",
+    "seed": """
+def seedEntryGen {β : Type} (ts : List Int) (get : Getter) (m : Nat) (parent : Option β) : Entry β Ser := %(entry)s
+
+theorem seedEntryGen_eq_model {β : Type} (ts : List Int) (get : Getter) (m : Nat) (parent : Option β) :
+    seedEntryGen ts get m parent = C12.seedEntry ts get m parent := by
+  unfold seedEntryGen C12.seedEntry
+  cases get m Key.var <;> rfl
+
+def seedRolesGen : List Role := %(roles)s
+
+theorem seedRolesGen_eq_model : seedRolesGen = C12.seedRoles := rfl
+""",
+    "constInputs": """
+def constInputEntryGen {β : Type} (ts : List Int) (get : Getter) (m : Nat) (parent : Option β) :
+    Option (Entry β Ser) := %(entry)s
+
+theorem constInputEntryGen_eq_model {β : Type} (ts : List Int) (get : Getter) (m : Nat) (parent : Option β) :
+    constInputEntryGen ts get m parent = C12.constInputEntry ts get m parent := by
+  unfold constInputEntryGen C12.constInputEntry
+  cases get m Key.var <;> rfl
+
+def constInputRolesGen : List Role := %(roles)s
+
+theorem constInputRolesGen_eq_model : constInputRolesGen = C12.constInputRoles := rfl
+""",
+    "parameters": """
+def parametersGen {α : Type} (parent io : List (Nat × α)) : List (Nat × α) := %(t)s
+
+theorem parametersGen_eq_model {α : Type} (parent io : List (Nat × α)) :
+    parametersGen parent io = C12.parametersMerge parent io := rfl
+""",
+    "storeSet": """
+def ioSetGen (n : Nat) (st : Store) (m v : Nat) (x : List XVal) : Option Store := %(t)s
+
+theorem ioSetGen_eq_model (n : Nat) (st : Store) (m v : Nat) (x : List XVal) :
+    ioSetGen n st m v x = C12.ioSet n st m v x := by
+  rw [← C12.ioSetRef_eq]
+  unfold ioSetGen C12.ioSetRef
+  first
+    | rfl
+    | (by_cases h : n = x.length <;> simp [h, Nat.add_comm, eq_comm])
+""",
+    "storeGet": """
+def ioGetGen (st : Store) (m v : Nat) : Option (List XVal) := %(t)s
+
+theorem ioGetGen_eq_model (st : Store) (m v : Nat) : ioGetGen st m v = C12.ioGet st m v := by
+  rw [← C12.ioGetRef_eq]
+  rfl
+""",
+    "simInit": """
+def simInitGen (ts : List Int) : Option SimSt :=
+  match ts with
+  | a :: b :: _ => some { dtImport := b - a, time := %(time)s, stamps := %(stamps)s, fed := %(fed)s, recorded := %(rec)s }
+  | _ => none
+
+theorem simInitGen_eq_model (ts : List Int) : simInitGen ts = C12.simInit ts := rfl
+""",
+    "simUpdate": """
+def simUpdateGen (ts : List Int) (s : SimSt) (dtArg : Int) : SimSt :=
+  { s with time := %(time)s, stamps := s.stamps ++ %(stamps)s, fed := s.fed ++ %(fed)s,
+           recorded := s.recorded ++ %(rec)s }
+
+theorem simUpdateGen_eq_model (ts : List Int) (s : SimSt) (dtArg : Int) :
+    simUpdateGen ts s dtArg = C12.simUpdate ts s dtArg := by
+  first
+    | rfl
+    | (simp only [simUpdateGen, C12.simUpdate, Int.add_comm])
+""",
+    "feedValue": """
+def feedValueGen (vals : List XVal) (idx : Nat) : Option (Option XVal) := %(t)s
+
+theorem feedValueGen_eq_model (vals : List XVal) (idx : Nat) : feedValueGen vals idx = C12.feedValue vals idx := rfl
+""",
+}
+
+
+def gen_io_slices(c):
+    """(re)generate lean/RtcVerif/Gen/IoSlices.lean; returns the extra obligation spec for c.prove"""
+    gdir = os.path.join(LEAN_DIR, "RtcVerif", "Gen")
+    os.makedirs(gdir, exist_ok=True)
+    path = os.path.join(gdir, "IoSlices.lean")
+    text, thms = HEAD2, []
+
+    def piece(name, what, fn, theorems):
+        nonlocal text
+        try:
+            r = fn()
+        except TranslationError as e:
+            c.broken.append(("translator: " + what, str(e)))
+            return
+        except Exception as e:
+            c.broken.append(("translator: " + what, "%s: %s" % (type(e).__name__, e)))
+            return
+        text += PIECES2[name] % r
+        thms.extend(theorems)
+
+    piece("bounds", "IOMixin.bounds", translate_bounds,
+          ["boundsEntryGen_eq_model", "boundsStoreGen_eq_model", "boundsRolesGen_eq_model"])
+    piece("history", "IOMixin.history (entries)", translate_history_entry,
+          ["historyEntryGen_eq_model", "historyRolesGen_eq_model"])
+    piece("seed", "IOMixin.seed", translate_seed, ["seedEntryGen_eq_model", "seedRolesGen_eq_model"])
+    piece("constInputs", "IOMixin.constant_inputs", translate_constant_inputs,
+          ["constInputEntryGen_eq_model", "constInputRolesGen_eq_model"])
+    piece("parameters", "IOMixin.parameters", translate_parameters, ["parametersGen_eq_model"])
+    piece("storeSet", "DataStore.set_timeseries", translate_store_set, ["ioSetGen_eq_model"])
+    piece("storeGet", "DataStore.get_timeseries_sec", translate_store_get, ["ioGetGen_eq_model"])
+    piece("simInit", "simulation IOMixin.initialize", translate_sim_initialize, ["simInitGen_eq_model"])
+    piece("simUpdate", "simulation IOMixin.update", translate_sim_update, ["simUpdateGen_eq_model"])
+    piece("feedValue", "simulation IOMixin.__set_input_variables", translate_feed_value, ["feedValueGen_eq_model"])
+    text += "\nend RtcVerif.Gen\n"
+    old = open(path).read() if os.path.exists(path) else None
+    if old != text:
+        tmp = path + ".tmp%d" % os.getpid()
+        with open(tmp, "w") as f:
+            f.write(text)
+        os.replace(tmp, path)
+    return [("RtcVerif.Gen.IoSlices", "RtcVerif.Gen", thms)] if thms else []
+
+
+# =============================================================================================
+# third generated module: Gen/PiBinOrder.lean  (gen_pi_bin_order)  --  data/pi.py, Timeseries.write
+#
+# translated                                                          generated          proved equal to
+# ----------------------------------------------------------------------------------------------------
+# header loop nest of a new file (under `if self.make_new_file:`)     headerOrderGen     C12.headerOrder
+# record loop nest (member loop, series in document order, member     recordOrderGen     C12.recordOrder
+#   test, which values go into the block written to the .bin)                            (via recordOrderCode_eq)
+#
+# Python construct                                   ->  model term                       (TRUSTED mapping)
+# ----------------------------------------------------------------------------------------------------
+# for M in range(len(self.__values)):                    (List.range E).flatMap (fun m => …)
+# for V in sorted(self.__values[M].keys()):              (vars m).map (fun v => …)     vars m = the sorted names of member m
+# self.__add_header(V, …, ensemble_member=M, …)          one header (m, v) appended to the document
+# for S in self.__xml_root.findall('pi:series', ns):     hs : the headers in document order
+# H = S.find('pi:header', ns)                            h
+# el = H.find('pi:ensembleMemberIndex', ns);
+#   if el is not None: if M != int(el.text): continue    hs.filter (fun h => decide (h.1 = m))   (a file of a single
+#                                                        member has no index element: every series is member 0's)
+# X = self.__data_config.variable(H)                     h.2
+# vals = self.__values[M][X]                             the values of series (m, h.2)
+# if len(vals) == 0: <remove the series>; continue       no header and no block (consistent by itself)
+# if self.__binary: f.write(vals.astype(…).tobytes())    one block (m, h.2) appended to the .bin
+# date / unit / event updates, time-zone element         no effect on the order of headers and blocks
+# any other loop order, `continue`, `break`, second write   TranslationError -> obligation broken
+
+
+def _loops_in(stmts):
+    return [s for s in stmts if isinstance(s, ast.For)]
+
+
+def translate_pi_bin_order():
+    fn = _find_method(_parse("data/pi.py"), "Timeseries", "write")
+    # ---- header nest
+    news = [s for s in fn.body if isinstance(s, ast.If) and _u(s.test) == "self.make_new_file"]
+    if len(news) != 1 or news[0].orelse:
+        raise TranslationError("pi.Timeseries.write: not exactly one `if self.make_new_file:` block")
+    outer = _loops_in(news[0].body)
+    if len(outer) != 1 or outer[0].orelse or not isinstance(outer[0].target, ast.Name) \
+            or _u(outer[0].iter) != "range(len(self.__values))":
+        raise TranslationError("pi.Timeseries.write: headers of a new file are not listed by `for M in range(len(self.__values))`")
+    M = outer[0].target.id
+    if len(outer[0].body) != 1 or not isinstance(outer[0].body[0], ast.For):
+        raise TranslationError("pi.Timeseries.write: the member loop of the headers holds more than the variable loop")
+    inner = outer[0].body[0]
+    if inner.orelse or not isinstance(inner.target, ast.Name) or _u(inner.iter) != "sorted(self.__values[%s].keys())" % M:
+        raise TranslationError("pi.Timeseries.write: inner header loop is not over sorted(self.__values[%s].keys()): %s"
+                               % (M, _u(inner.iter)))
+    V = inner.target.id
+    adds = []
+    for st in inner.body:
+        if isinstance(st, ast.Assign):
+            continue
+        if isinstance(st, ast.Expr) and _call_name(st.value) == "self.__add_header":
+            adds.append(st.value)
+            continue
+        raise TranslationError("pi.Timeseries.write: unsupported statement in the header loop: " + _u(st))
+    if len(adds) != 1 or not adds[0].args or _u(adds[0].args[0]) != V \
+            or [_u(k.value) for k in adds[0].keywords if k.arg == "ensemble_member"] != [M]:
+        raise TranslationError("pi.Timeseries.write: not exactly one __add_header(%s, …, ensemble_member=%s)" % (V, M))
+    header_term = "(List.range E).flatMap (fun m => (vars m).map (fun v => (m, v)))"
+    # ---- record nest
+    writes = [n for n in ast.walk(fn) if isinstance(n, ast.Call) and _call_name(n) == "f.write"]
+    if len(writes) != 1:
+        raise TranslationError("pi.Timeseries.write: not exactly one f.write(…) into the .bin")
+    rec = [s for s in _loops_in(fn.body) if any(w is n for n in ast.walk(s) for w in writes)]
+    if len(rec) != 1 or rec[0].orelse or not isinstance(rec[0].target, ast.Name) or _u(rec[0].iter) != "range(len(self.__values))":
+        raise TranslationError("pi.Timeseries.write: the records are not written inside `for M in range(len(self.__values))`")
+    M2 = rec[0].target.id
+    sl = [s for s in _loops_in(rec[0].body) if any(w is n for n in ast.walk(s) for w in writes)]
+    if len(sl) != 1 or sl[0].orelse or not isinstance(sl[0].target, ast.Name) \
+            or _u(sl[0].iter) != "self.__xml_root.findall('pi:series', ns)":
+        raise TranslationError("pi.Timeseries.write: the records are not written series by series in document order")
+    S = sl[0].target.id
+    env, filtered, values_of, written = {}, False, None, False
+    for st in sl[0].body:
+        if written:
+            if any(isinstance(n, ast.Call) and _call_name(n) == "f.write" for n in ast.walk(st)):
+                raise TranslationError("second write")
+            continue
+        u = _u(st, 400)
+        if isinstance(st, ast.Assign) and len(st.targets) == 1 and isinstance(st.targets[0], ast.Name):
+            nm, val = st.targets[0].id, _u(st.value, 300)
+            if val == "%s.find('pi:header', ns)" % S:
+                env[nm] = "header"
+            elif nm in env:
+                env.pop(nm)
+            hdr = [k for k, v in env.items() if v == "header"]
+            if hdr and val == "%s.find('pi:ensembleMemberIndex', ns)" % hdr[0]:
+                env[nm] = "index"
+            elif hdr and val == "self.__data_config.variable(%s)" % hdr[0]:
+                env[nm] = "variable"
+            else:
+                var = [k for k, v in env.items() if v == "variable"]
+                if var and val == "self.__values[%s][%s]" % (M2, var[0]):
+                    env[nm] = "values"
+                    values_of = True
+            continue
+        if isinstance(st, ast.If):
+            idx = [k for k, v in env.items() if v == "index"]
+            vals = [k for k, v in env.items() if v == "values"]
+            if idx and _u(st.test) == "%s is not None" % idx[0] and not st.orelse and len(st.body) == 1 \
+                    and isinstance(st.body[0], ast.If) and not st.body[0].orelse \
+                    and _u(st.body[0].test) in ("%s != int(%s.text)" % (M2, idx[0]), "int(%s.text) != %s" % (idx[0], M2)) \
+                    and len(st.body[0].body) == 1 and isinstance(st.body[0].body[0], ast.Continue):
+                filtered = True
+                continue
+            if vals and _u(st.test) == "len(%s) == 0" % vals[0] and not st.orelse \
+                    and [_u(b) for b in st.body] == ["self.__xml_root.remove(%s)" % S, "continue"]:
+                continue
+            if _u(st.test) == "self.__binary" and st.body and isinstance(st.body[0], ast.Expr) \
+                    and _call_name(st.body[0].value) == "f.write" and vals \
+                    and _u(st.body[0].value.args[0]).startswith("%s.astype(" % vals[0]) \
+                    and _u(st.body[0].value.args[0]).endswith(".tobytes()"):
+                if not filtered or not values_of:
+                    raise TranslationError("pi.Timeseries.write: block written before the member test / not the values "
+                                           "of (member, variable of the header)")
+                written = True
+                continue
+        if any(isinstance(n, (ast.Continue, ast.Break, ast.Return)) for n in ast.walk(st)):
+            raise TranslationError("pi.Timeseries.write: `continue` / `break` before the block is written: " + u[:120])
+        # header updates (dates, units): no effect on the order
+    if not written:
+        raise TranslationError("pi.Timeseries.write: no `if self.__binary: f.write(values.astype(…).tobytes())` found")
+    rec_term = "(List.range E).flatMap (fun m => (hs.filter (fun h => decide (h.1 = m))).map (fun h => ((m, h.2) : SKey)))"
+    return {"hdr": header_term, "rec": rec_term}
+
+
+HEAD3 = """import RtcVerif.Model.C12Io
+import RtcVerif.Proofs.C12Io
+/-!
+GENERATED on every run of the C12 check by harness/translate_c12.py (`gen_pi_bin_order`) from
+data/pi.py (`Timeseries.write`) of the tree under check.  Do not edit.
+-/
+set_option linter.unusedVariables false
+namespace RtcVerif.Gen
+open RtcVerif RtcVerif.C12
+
+def headerOrderGen (vars : Nat → List Nat) (E : Nat) : List SKey := %(hdr)s
+
+theorem headerOrderGen_eq_model (vars : Nat → List Nat) (E : Nat) :
+    headerOrderGen vars E = C12.headerOrder vars E := rfl
+
+def recordOrderGen (hs : List SKey) (E : Nat) : List SKey := %(rec)s
+
+theorem recordOrderGen_eq_model (hs : List SKey) (E : Nat) : recordOrderGen hs E = C12.recordOrder hs E :=
+  C12.recordOrderCode_eq hs E
+
+/-- the two loop nests of the source agree: the blocks of a new binary file come in header order -/
+theorem binOrderGen_consistent (vars : Nat → List Nat) (E : Nat) :
+    recordOrderGen (headerOrderGen vars E) E = headerOrderGen vars E := by
+  rw [recordOrderGen_eq_model, headerOrderGen_eq_model]
+  exact C12.recordOrder_headerOrder vars E
+
+end RtcVerif.Gen
+"""
+
+
+def gen_pi_bin_order(c):
+    """(re)generate lean/RtcVerif/Gen/PiBinOrder.lean; returns the extra obligation spec for c.prove"""
+    path = os.path.join(LEAN_DIR, "RtcVerif", "Gen", "PiBinOrder.lean")
+    try:
+        r = translate_pi_bin_order()
+    except TranslationError as e:
+        c.broken.append(("translator: pi.Timeseries.write (header / record order)", str(e)))
+        return []
+    except Exception as e:
+        c.broken.append(("translator: pi.Timeseries.write (header / record order)", "%s: %s" % (type(e).__name__, e)))
+        return []
+    text = HEAD3 % r
+    old = open(path).read() if os.path.exists(path) else None
+    if old != text:
+        tmp = path + ".tmp%d" % os.getpid()
+        with open(tmp, "w") as f:
+            f.write(text)
+        os.replace(tmp, path)
+    return [("RtcVerif.Gen.PiBinOrder", "RtcVerif.Gen",
+             ["headerOrderGen_eq_model", "recordOrderGen_eq_model", "binOrderGen_consistent"])]
